@@ -351,6 +351,65 @@ func runC11(p *core.Prog, r *core.Report, tier string) {
 	}
 	r.Floor("C11.h per-account functions filling the controlled set", nG, 1)
 
+	// ---- (i) the relay client that delivers a registration is the client of that relay's own address ----
+	if fb := p.Func("util", "", "FetchBuilderClient"); fb != nil {
+		var addr *ssa.Parameter
+		for _, prm := range fb.Params {
+			if b, ok := prm.Type().Underlying().(*types.Basic); ok && b.Kind() == types.String && addr == nil {
+				addr = prm
+			}
+		}
+		nKey := 0
+		check := func(in ssa.Instruction, m, key ssa.Value, what string) {
+			ld, ok := m.(*ssa.UnOp)
+			if !ok {
+				return
+			}
+			if _, isGlobal := ld.X.(*ssa.Global); !isGlobal {
+				return
+			}
+			nKey++
+			r.Check(addr != nil && key == ssa.Value(addr), "C11.i", fmt.Sprintf("util.FetchBuilderClient|client-cache|%s#%d", what, nKey), p.Pos(in.Pos()), "the client cache is keyed by the relay address itself",
+				"the relay client cache is keyed by "+ds.D(key).String()+" instead of the relay's full address: relays whose addresses agree in that part share one client, so one relay receives the other's registrations and the other none")
+		}
+		core.EachInstr(fb, func(in ssa.Instruction) {
+			switch x := in.(type) {
+			case *ssa.Lookup:
+				check(in, x.X, x.Index, "lookup")
+			case *ssa.MapUpdate:
+				check(in, x.Map, x.Key, "insert")
+			}
+		})
+		r.Floor("C11.i relay client cache accesses", nKey, 2)
+		for _, ci := range core.CallsNamed(fb, "WithAddress") {
+			r.Check(addr != nil && ci.Common().Args[0] == ssa.Value(addr), "C11.i", "util.FetchBuilderClient|client-address", p.Pos(ci.Pos()), "the client is created for the address asked for", "the client is created for "+ds.D(ci.Common().Args[0]).String()+", not for the address asked for")
+		}
+	} else {
+		r.Undecide("C11.i", "util.FetchBuilderClient", "", "anchor not found")
+	}
+
+	// ---- (j) one recipient's failure does not reach the others: no context shared by the fan-out members
+	// is cancelled on the first failure (errgroup.WithContext) ----
+	nEg := 0
+	for _, rel := range []string{"services/blockrelay/standard", "services/proposalpreparer/standard"} {
+		for _, f := range p.FuncsIn(rel) {
+			for _, ci := range core.Calls(f, func(c *ssa.CallCommon) bool { return strings.HasSuffix(core.CalleeName(c), "errgroup.WithContext") }) {
+				call, ok := ci.(*ssa.Call)
+				if !ok {
+					continue
+				}
+				ex := core.ExtractOf(call, 1)
+				used := ex != nil && ex.Referrers() != nil && len(*ex.Referrers()) > 0
+				nEg++
+				r.Check(!used, "C11.j", fmt.Sprintf("%s|fail-fast-context#%d", core.FnKey(f), nEg), p.Pos(ci.Pos()), "the group's fail-fast context is not used",
+					"the recipients of this fan-out run under the context of errgroup.WithContext, which is cancelled as soon as one of them fails: a failing relay or beacon node aborts the registrations/preparations still in flight to the others")
+			}
+		}
+	}
+	if nEg == 0 {
+		r.Hold("C11.j", "no-fail-fast-context", "", "no fan-out of registrations or preparations runs under an errgroup context")
+	}
+
 	// ---- (f) preparations ----
 	nPrep := 0
 	for _, f := range prepFns {
